@@ -38,6 +38,7 @@ deriving Repr
 inductive Act where
   | nodeDown | nodeUp | rpcDownAfter (i : Nat) | mine (dispute : Bool) | failBlock (i : Nat)
   | apiStart | apiRun | poll | probe
+  | nodeBehind        -- the node answers again but its best block is the parent of the tower's tip (a poll finds a worse tip)
 deriving DecidableEq, Repr
 
 /-- one RPC attempt: `true` = answered, `false` = transport error -/
@@ -103,6 +104,8 @@ def step (s : St) : Act → St
       if !s.nodeUp then { s with flag := false }
       else deliver s 16 0
   | .probe => s
+  -- a worse tip gives the poll nothing to deliver: it ends like a poll that finds nothing new (flag set, waiters woken)
+  | .nodeBehind => s
 
 /-- `InternalAPI::check_service_unavailable` -/
 def apiStatus (s : St) : Nat := if s.flag then 200 else 503
